@@ -245,6 +245,7 @@ class Ctx:
         # an executor (not multiprocessing.Pool): when a worker is killed - a broken library can eat all memory - the
         # pending results fail with BrokenProcessPool instead of the run waiting forever for a task that is lost
         ex = ProcessPoolExecutor(nproc, mp_context=mp, initializer=_init_worker)
+        clean = False
         try:
             futs = [ex.submit(_worker, a) for a in args]
             for f in as_completed(futs):
@@ -255,8 +256,9 @@ class Ctx:
                 if "error" in res:
                     raise HarnessError("worker failed:\n" + res["error"])
                 self.merge(res)
+            clean = True
         finally:
-            ex.shutdown(wait=False, cancel_futures=True)
+            ex.shutdown(wait=clean, cancel_futures=True)
 
 
 def _size(case):
